@@ -149,3 +149,79 @@ Theorem C16_lone_star_true :
 Proof. exact lone_star_true. Qed.
 Print Assumptions C16_lone_star_true.
 
+(* ====== ties to the source: BEGIN (written by bin/mkties) ====== *)
+(* The Go functions named here are translated into Gallina from /repo's source on every run
+   (tools/gen -> Gen/Code/<Eco>.v for loop-free functions, Gen/Loops/<Eco>.v for functions with
+   loops and index expressions, where a panic is Panic and a loop takes fuel); Tie/<Eco>.v,
+   Tie/<Eco>Range.v and Tie/Loops/<Eco>.v prove each translation equal to the model the theorems
+   above speak about (and, for the loop functions: no panic, termination within a linear bound).
+   If the code changes so that a tie no longer holds, this file no longer checks. *)
+Require Verif.Tie.Vers.Code.
+Require Verif.Tie.Vers.Constraints.
+Require Verif.Tie.Vers.Printers.
+Require Verif.Tie.Vers.Pypi.
+Require Verif.Tie.Vers.Texts.
+Require Verif.Tie.Vers.Valid.
+Definition C16_tie_shouldMergeConstraints_tie := Verif.Tie.Vers.Code.shouldMergeConstraints_tie.
+Print Assumptions C16_tie_shouldMergeConstraints_tie.
+Definition C16_tie_ensureVPrefix_tie := Verif.Tie.Vers.Code.ensureVPrefix_tie.
+Print Assumptions C16_tie_ensureVPrefix_tie.
+Definition C16_tie_parseConstraint_tie := Verif.Tie.Vers.Constraints.parseConstraint_tie.
+Print Assumptions C16_tie_parseConstraint_tie.
+Definition C16_tie_parseConstraint_finished := Verif.Tie.Vers.Constraints.parseConstraint_finished.
+Print Assumptions C16_tie_parseConstraint_finished.
+Definition C16_tie_parseConstraints_tie := Verif.Tie.Vers.Constraints.parseConstraints_tie.
+Print Assumptions C16_tie_parseConstraints_tie.
+Definition C16_tie_parseConstraints_finished := Verif.Tie.Vers.Constraints.parseConstraints_finished.
+Print Assumptions C16_tie_parseConstraints_finished.
+Definition C16_tie_parseConstraints_normalize := Verif.Tie.Vers.Constraints.parseConstraints_normalize.
+Print Assumptions C16_tie_parseConstraints_normalize.
+Definition C16_tie_alpine_printer_tie := Verif.Tie.Vers.Printers.alpine_printer_tie.
+Print Assumptions C16_tie_alpine_printer_tie.
+Definition C16_tie_cargo_printer_tie := Verif.Tie.Vers.Printers.cargo_printer_tie.
+Print Assumptions C16_tie_cargo_printer_tie.
+Definition C16_tie_debian_printer_tie := Verif.Tie.Vers.Printers.debian_printer_tie.
+Print Assumptions C16_tie_debian_printer_tie.
+Definition C16_tie_gem_printer_tie := Verif.Tie.Vers.Printers.gem_printer_tie.
+Print Assumptions C16_tie_gem_printer_tie.
+Definition C16_tie_golang_printer_tie := Verif.Tie.Vers.Printers.golang_printer_tie.
+Print Assumptions C16_tie_golang_printer_tie.
+Definition C16_tie_maven_printer_tie := Verif.Tie.Vers.Printers.maven_printer_tie.
+Print Assumptions C16_tie_maven_printer_tie.
+Definition C16_tie_npm_printer_tie := Verif.Tie.Vers.Printers.npm_printer_tie.
+Print Assumptions C16_tie_npm_printer_tie.
+Definition C16_tie_nuget_printer_tie := Verif.Tie.Vers.Printers.nuget_printer_tie.
+Print Assumptions C16_tie_nuget_printer_tie.
+Definition C16_tie_pypi_printer_tie := Verif.Tie.Vers.Printers.pypi_printer_tie.
+Print Assumptions C16_tie_pypi_printer_tie.
+Definition C16_tie_rpm_printer_tie := Verif.Tie.Vers.Printers.rpm_printer_tie.
+Print Assumptions C16_tie_rpm_printer_tie.
+Definition C16_tie_semver_printer_tie := Verif.Tie.Vers.Printers.semver_printer_tie.
+Print Assumptions C16_tie_semver_printer_tie.
+Definition C16_tie_printers_keys := Verif.Tie.Vers.Printers.printers_keys.
+Print Assumptions C16_tie_printers_keys.
+Definition C16_tie_printers_match_style_table := Verif.Tie.Vers.Printers.printers_match_style_table.
+Print Assumptions C16_tie_printers_match_style_table.
+Definition C16_tie_printers_on_model_interval := Verif.Tie.Vers.Printers.printers_on_model_interval.
+Print Assumptions C16_tie_printers_on_model_interval.
+Definition C16_tie_containsPrereleaseMarkers_tie := Verif.Tie.Vers.Pypi.containsPrereleaseMarkers_tie.
+Print Assumptions C16_tie_containsPrereleaseMarkers_tie.
+Definition C16_tie_containsPrereleaseMarkers_finished := Verif.Tie.Vers.Pypi.containsPrereleaseMarkers_finished.
+Print Assumptions C16_tie_containsPrereleaseMarkers_finished.
+Definition C16_tie_constraintsIncludePrerelease_finished := Verif.Tie.Vers.Pypi.constraintsIncludePrerelease_finished.
+Print Assumptions C16_tie_constraintsIncludePrerelease_finished.
+Definition C16_tie_constraintsIncludePrerelease_tie := Verif.Tie.Vers.Pypi.constraintsIncludePrerelease_tie.
+Print Assumptions C16_tie_constraintsIncludePrerelease_tie.
+Definition C16_tie_printers_texts := Verif.Tie.Vers.Texts.printers_texts.
+Print Assumptions C16_tie_printers_texts.
+Definition C16_tie_printers_texts_normalize := Verif.Tie.Vers.Texts.printers_texts_normalize.
+Print Assumptions C16_tie_printers_texts_normalize.
+Definition C16_tie_valid_tie := Verif.Tie.Vers.Valid.valid_tie.
+Print Assumptions C16_tie_valid_tie.
+Definition C16_tie_valid_finished := Verif.Tie.Vers.Valid.valid_finished.
+Print Assumptions C16_tie_valid_finished.
+Definition C16_tie_scheme_tie := Verif.Tie.Vers.Valid.scheme_tie.
+Print Assumptions C16_tie_scheme_tie.
+Definition C16_tie_scheme_finished := Verif.Tie.Vers.Valid.scheme_finished.
+Print Assumptions C16_tie_scheme_finished.
+(* ====== ties to the source: END ====== *)
